@@ -484,6 +484,7 @@ class _:
         return dict(self=None)
     modifies = []
     returns = 'bool'
+    effect = lambda ip, argmap, result: (ip.state.events.append(('timedout', (argmap['self'], argmap['timeout']), {})), NotImplemented)[1]
 
 
 @contract('connection.ServerClientConnection.disconnect', props=[], variant='pool')
@@ -613,6 +614,22 @@ def shutdown_instances(env):
     return sweep_instances(env) + [{'a': z3.Select(live_fields(E)('addr'), S.term(c, 'int'))}]
 
 
+def sweep_timeout_check(which, attr):
+    """C12 (E4): the sweep asks each client about silence with the CONTEXT's current timeout for that pool"""
+    def post(ip, frame, env):
+        g = ip.state.ghost
+        ev = [e for e in ip.state.events[g.get('sweep_ev0', 0):] if e[0] == 'timedout']
+        want = g['ctxt'].attrs[attr]
+        for e in ev:
+            ip.ctx.oblige('%s/loop@%s:iteration/silence-is-measured-against-the-contexts-%s' % (ip.verifying_key, which, attr.replace('_', '-')),
+                          ops.bterm(ops.equal(e[1][1], want)))
+    return post
+
+
+def sweep_pre(ip, frame, env):
+    ip.state.ghost['sweep_ev0'] = len(ip.state.events)
+
+
 def dispatch_pre(ip, frame, env):
     snapshot_client(ip)
     ctxt = ip.state.ghost['ctxt']
@@ -638,6 +655,12 @@ def dispatch_post(ip, frame, env):
                                  z3.And(z3.Select(conns.dom, a), z3.Select(conns.val, a) == z3.Select(tv0, a)))))
     ip.ctx.oblige('%s/loop@dispatch:iteration/an-established-client-is-never-removed-by-a-datagram' % ip.verifying_key, z3.Implies(
         z3.Select(cd0, a), z3.And(z3.Select(conns.dom, a), z3.Select(conns.val, a) == z3.Select(cv0, a))))
+    # C12 (E4): a client created for a new address takes the context's keep-alive interval and message timeout
+    client0 = frame.locals.get('client')
+    if isinstance(client0, SymObj) and any(r.eq(client0.ref) for r in ip.state.allocated):
+        for fld_, attr in (('send_keep_alive_interval', 'keep_alive_interval'), ('outgoing_timeout', 'outgoing_timeout')):
+            ip.ctx.oblige('%s/loop@dispatch:iteration/a-new-client-takes-the-contexts-%s' % (ip.verifying_key, attr.replace('_', '-')),
+                          z3.Select(ip.state.fields[(SCCN, fld_)][0], client0.ref) == ops.term(ctxt.attrs[attr], 'real'))
     # "events keep flowing when a handler raises": an exception of one handler call must not end the delivery loop - the
     # remaining messages of the datagram would never reach the handler
     ip.ctx.oblige('%s/loop@dispatch:iteration/a-handler-exception-does-not-abort-the-delivery-of-the-remaining-messages' % ip.verifying_key,
@@ -665,7 +688,7 @@ def dispatch_post(ip, frame, env):
                       z3.Implies(z3.And(z3.Not(res), empty), z3.BoolVal(False)))
 
 
-@contract('server.UdpServerThread.run', props=['C10', 'C11', 'C02', 'C01'])
+@contract('server.UdpServerThread.run', props=['C10', 'C11', 'C02', 'C01', 'C12'])
 class _:
     """the whole server loop, executed from its source: datagram dispatch over the two pools, handler.update, the two sweeps,
     the queue hand-off, the statistics, the shutdown sweep.  Proved: PoolInv is an invariant of every loop; every handler event
@@ -693,9 +716,11 @@ class _:
                     ghost_post=lambda ip, frame, env: ip.state.ghost.__setitem__('delivering', False),
                     invariant={'client-is-connected': lambda ghost, client: S.bool(z3.Select(ghost.life, client.ref) == CONN_)}),
         3: LoopSpec(label='sweep', havoc=POOL_HAVOC, havoc_kinds={'sending': sending_kind}, instances=sweep_instances, ghost_init=sweep_init,
+                    ghost_pre=sweep_pre, ghost_post=sweep_timeout_check('sweep', 'connection_timeout'),
                     invariant={**pool_inv_clauses(),
                                'clients-not-yet-visited-are-still-registered': lambda E, self, _it, _i, j: still_pooled(E, self.ctxt.connections, _it, _i, j)}),
         4: LoopSpec(label='temp-sweep', havoc=POOL_HAVOC, havoc_kinds={'sending': sending_kind}, instances=sweep_instances, ghost_init=sweep_init,
+                    ghost_pre=sweep_pre, ghost_post=sweep_timeout_check('temp-sweep', 'temp_connection_timeout'),
                     invariant={**pool_inv_clauses(),
                                'clients-not-yet-visited-are-still-registered': lambda E, self, _it, _i, j: still_pooled(E, self.ctxt.temp_connections, _it, _i, j)}),
         5: LoopSpec(label='wait-for-datagrams', havoc=['self.queue', 'self.ctxt._active'], invariant={}),
@@ -784,3 +809,25 @@ class _:
         'each-packet-sealed-with-its-own-key-and-sent-to-its-own-address': lambda events, ghost: sent_as_given(events, ghost.seq, 'transport.write'),
     }
     modifies = []
+
+
+@contract('connection.ConnectionBase.disconnect', props=['C10'])
+class _:
+    """server- or client-initiated disconnect on the concrete object: ends DISCONNECTED; from CONNECTED / DISCONNECTING everything
+    pending is dropped and exactly one DISCONNECT message is queued for the peer; only the connection's own fields change (the
+    frame the pool-level summary disconnect@pool restates)"""
+    def setup(E):
+        self = make_conn(E)
+        E.ghost('conn', self)
+        return dict(self=self, callback=None)
+    ensures = {
+        'ends-disconnected': lambda self, E: S.enum_is(self.status, E.member(STATUS, 'DISCONNECTED')),
+        'one-disconnect-message-for-the-peer-when-it-was-open': lambda old, self, E: S.ite(
+            S.enum_is(old.self.status, E.member(STATUS, 'CONNECTED')) | S.enum_is(old.self.status, E.member(STATUS, 'DISCONNECTING')),
+            (S.len(self.outgoing_messages) == 1) & S.enum_is(E.elem(self.outgoing_messages, 0).type, E.member(PTYPE, 'DISCONNECT'))
+            & (S.len(self.incoming_messages) == 0),
+            S.len(self.outgoing_messages) == S.len(old.self.outgoing_messages)),
+    }
+    modifies = ['self.status', 'self.outgoing_messages', 'self.incoming_messages', 'self.pending_callbacks', 'self.pending_retry',
+                'self.pending_acks', 'self.seq_message', 'self.stats.sent'] + ['field:PendingMessage.' + f for f in
+                ('seq', 'type', 'payload', 'callback', 'retry', 'assembled_time')]
